@@ -148,6 +148,10 @@ func validateCurves(config *Configuration) error {
 				return fmt.Errorf("curve %s: unsupported function type '%s', use one of: %s", curveConfig.ID, curveConfig.Function.Type, strings.Join(supportedTypes, " | "))
 			}
 
+			if len(curveConfig.Function.Curves) <= 0 {
+				return fmt.Errorf("curve %s: function curve requires at least one curve id in 'curves'", curveConfig.ID)
+			}
+
 			var connections []interface{}
 			for _, curve := range curveConfig.Function.Curves {
 				if curve == curveConfig.ID {
@@ -168,6 +172,10 @@ func validateCurves(config *Configuration) error {
 
 			if !sensorIdExists(curveConfig.Linear.Sensor, config) {
 				return fmt.Errorf("curve %s: no sensor definition with id '%s' found", curveConfig.ID, curveConfig.Linear.Sensor)
+			}
+
+			if curveConfig.Linear.Steps != nil && len(curveConfig.Linear.Steps) <= 0 {
+				return fmt.Errorf("curve %s: steps must not be empty, define at least one step or use min/max instead", curveConfig.ID)
 			}
 		}
 
@@ -266,6 +274,10 @@ func validateFans(config *Configuration) error {
 		}
 
 		if fanConfig.ControlAlgorithm != nil {
+			if fanConfig.ControlAlgorithm.Direct == nil && fanConfig.ControlAlgorithm.Pid == nil {
+				return fmt.Errorf("fan %s: controlAlgorithm must define one of: direct | pid", fanConfig.ID)
+			}
+
 			if fanConfig.ControlAlgorithm.Direct != nil {
 				maxPwmChangePerCycle := fanConfig.ControlAlgorithm.Direct.MaxPwmChangePerCycle
 				if maxPwmChangePerCycle != nil && *maxPwmChangePerCycle <= 0 {
